@@ -98,6 +98,8 @@ def visiting(rep, spec, py, init=None):
 		# whatever happens to the customer in between, and is never lost on the way
 		bad += [x for x in simlib.oracle_C03(spec, py['trace'], init) if 'not received by the supplier' in x]
 		bad += [x for x in simlib.oracle_C01(spec, py['trace'], init) if 'orders in transit to the supplier' in x]
+		# "orders": the quantity a node orders in the order phase is the one its documented policy prescribes for the position it observes
+		bad += simlib.oracle_C04(spec, py['trace'], init)
 	if bad:
 		rep.diff('sim-trace-full', 'documented sequence of events violated on the real code: ' + '; '.join(bad[:3]), spec, py={'oseq': py['oseq'], 'sseq': py['sseq']}, oracle=True, theorem=THEOREM)
 
